@@ -27,13 +27,67 @@ CHECKS.update({
                   "trace graph abstracted to calculated nodes reachable through calculated nodes; precondition D25 (no precedent pre-computed) explicit in the statements, recorded as known finding",
              technique="Coq proof (induction over the planner loop and over fuel) + vm_compute correspondence + property oracle", design="6/C16"),
 })
-EXPLORE = {
- "C02": "differential oracle (live model vs model that replayed only the edits) + correspondence of Exec/Model.v; invariant-preservation theorems for edits under construction",
- "C06": "graph-descendant oracle on every value edit + correspondence of Exec/Model.v; theorems under construction",
- "C08": "reference-interpreter oracle for preds/graph=cache/acyclicity + correspondence of Exec/Model.v; theorems under construction",
- "C09": "two-flag-assignment differential + correspondence of Exec/Model.v; theorems under construction",
- "C17": "executing-chain oracle (reference interpreter with line numbers) + correspondence of Exec/Model.v; theorems under construction",
-}
+CHECKS.update({
+ "C02": dict(text="Coq theorem (partial): for every history of evaluations interleaved with value assignments/overwrites, clear_at/clear/clear_all, formula changes, cached-flag changes "
+                  "and recalculation-option changes, the dependency-coverage invariant holds and every held value and every answer equals the uncached specification value under the "
+                  "CURRENT definitions and inputs (one proof case per edit kind; locality lemma with one case per kind of read). Reference changes are executed by the model and "
+                  "checked by correspondence + differential oracle only; structural edits belong to C03/C11-C13.",
+             note=EXEC_NOTE + "; theorems assume defs_ok (no call inside try: finding D20) and exclude OpSetRef; ghost flag s_reent=false (no formula re-entered itself, i.e. no DeepReferenceError cycle)",
+             technique="Coq proof (coverage invariant by simulation of executor against a reads-instrumented spec; locality lemma; closure of reach) + vm_compute correspondence + edits-only differential", design="6/C02"),
+ "C06": dict(text="Coq theorems: clearing/overwriting an element removes exactly the held elements reachable from it in the dependency graph (reach = reflexive-transitive closure, proved), "
+                  "every read of a held element has an edge (coverage), other values and inputs untouched, clear() keeps inputs, assigned values are returned without running formulas, "
+                  "set_value keeps the invariant under both recalc settings. Partial: no-spurious-edge direction and reference changes rest on correspondence + oracle.",
+             note=EXEC_NOTE + "; defs_ok and s_reent=false hypotheses", technique="Coq proof (graph closure lemma + coverage invariant) + vm_compute correspondence + graph-descendant oracle", design="6/C06"),
+ "C08": dict(text="Coq theorem (partial): in every reachable quiescent state graph item nodes = held elements, edges join graph nodes, inputs have no predecessors, every element read "
+                  "(cached callee, uncached cells passed through, reference read by attribute) is recorded as predecessor, uncached cells hold nothing. Converse inclusion and acyclicity "
+                  "are checked by correspondence and the reference-interpreter oracle only.",
+             note=EXEC_NOTE + "; defs_ok, s_reent=false, no OpSetRef in the proved histories", technique="Coq proof (coverage invariant Cov through push/hit/pop/rollback and edits) + vm_compute correspondence + reference-interpreter oracle", design="6/C08"),
+ "C09": dict(text="Coq theorems (partial): flipping the cached flag of any cells at any point keeps the invariant, so all later answers are the specification values; uncached cells hold no "
+                  "values; invalidation reaches values computed through uncached cells (object-node coverage). Independence of the specification value from the flags is not mechanised "
+                  "(None check: finding D33); checked by the two-flag-assignment differential on every run.",
+             note=EXEC_NOTE + "; defs_ok, s_reent=false, no OpSetRef", technique="Coq proof (set_cached preserves Quiet; coverage of uncached cells) + vm_compute correspondence + flag-assignment differential", design="6/C09"),
+ "C17": dict(text="Coq theorem (partial): after any failing top-level evaluation from any invariant state the recorded traceback is non-empty, outermost entry is the requested element, the error "
+                  "kind is recorded and the rolled-back list is empty (earlier failures leave no trace). Exact chain and line numbers are checked by correspondence (model computes them) "
+                  "and the reference-interpreter oracle on every run.",
+             note=EXEC_NOTE + "; traceback.TracebackException frame/line semantics modelled", technique="Coq proof (partial) + vm_compute correspondence of full tracebacks + executing-chain oracle", design="6/C17"),
+ "C03": dict(text="Coq proof that for every sequence of space/base/member edits the model's members equal the from-scratch re-derivation along the C3 order (plus name uniqueness, the C3 laws "
+                  "and evaluation in the sub space), model tied to /repo after every operation by vm_compute correspondence on random and exhaustive small ordered-base DAGs. The pinned tree "
+                  "deviates on D1 D2 D2b D3 D33 D34 (D23): recorded findings, triggers avoided, witnesses replayed.",
+             note="trusted: Coq kernel + vm_compute, harness generator/emitter/driver, Defs/Check.v; modelled not verified: networkx (DAG test, traversal order), CPython; flat spaces, integer refs, "
+                  "lambda:<int|refname> formulas; on_inherit idealised to read only defined members; outside: rename, nesting, dynamic spaces, is_cached/allow_none/refmode, value cache",
+             technique="Coq refinement proof (induction over fold_left step; C3 by fuel induction) + vm_compute correspondence + Coq rederive oracle + Python frame oracle", design="6/C03"),
+ "C04": dict(text="Statement-level codec round trip decode (encode m) = Some m for all well-formed model descriptions, zip==directory file maps for the writer's write plan, the path algebra and the "
+                  "docstring literal condition proved in Coq; same encoder, write plan, file-system models and lexer evaluated in Coq on every run against what the real writer wrote; the property "
+                  "itself checked implementation-vs-implementation on generated models for both containers and chains.",
+             note="trusted: Coq kernel + vm_compute, harness describe() and the ast abstraction in c04codec.py; modelled not verified: CPython tokenizer/ast/asttokens, pickle value fidelity, zipfile/pathlib, "
+                  "formula text (C20), reader instruction phases ((P) only), IOSpec references (C18); generator avoids D1 D8 D9 D24 and C04-local D33-D37",
+             technique="Coq proof (induction over nested trees / write sequences) + generated-case correspondence by vm_compute + differential oracle on the real library", design="6/C04"),
+ "C14": dict(text="Backup-chain invariant proved in Coq for all sequences of faulted and successful saves (zip: unconditional; directory: no two consecutive failures) over an executable model of "
+                  "_increment_backups, ModelWriter.write_model and ModelReader.read_model, plus session/registry cleanliness after any failed operation; tied to /repo on every run by exhaustive "
+                  "fault-point enumeration with traces and on-disk state compared inside Coq.",
+             note="trusted: Coq kernel + vm_compute; driver monkey-patch fault injection (a fault raises before the primitive runs); modelled not verified: pathlib, shutil, zipfile, pickle, tempfile; "
+                  "member shapes from clean runs; four slots (DEFAULT_MAX_BACKUPS=3); not modelled: partial rmtree, cross-filesystem move, serializer_1 fallback",
+             technique="Coq proof (induction over save lists + 4-slot case analysis) + exhaustive fault-injection correspondence + property oracle", design="6/C14"),
+ "C15": dict(text="Coq proof that the exporter's name-rewriting rule preserves evaluation for every formula of a binder grammar and every model satisfying a decidable well-formedness check, plus "
+                  "memo-table soundness; tie on every run: real FormulaTransformer output = transform, the Gallina evaluator on the dumped implementation state = observed values in both worlds, "
+                  "exported values = model values four ways (modelx-free subprocess).",
+             note="trusted: Coq kernel + vm_compute; Python harness (generator, printer/parser, dump); modelled not verified: CPython scoping/evaluation on the grammar, libcst, symtable, pickle; outside: "
+                  "syntax beyond the grammar, default parameter values, pandas/IOSpec refs, package module globals; six recorded defects avoided and replayed",
+             technique="Coq simulation proof (fuel + structural induction) + translation validation of FormulaTransformer + differential testing in a modelx-free subprocess", design="6/C15"),
+ "C18": dict(text="Coq proof over all operation sequences (new_pandas/new_module, assignment, rebinding, deletion, update, add/remove_bases, close, sheet/path setters, del_spec) that the IO manager's "
+                  "specs are exactly those whose value is bound by a reference of an open model; rejected creations change nothing; no two specs share a location; _check_sanity assertions are "
+                  "invariants. Tied to modelx on every run by replaying generated histories and comparing all spec/reference observables after every operation.",
+             note="trusted: Coq kernel + vm_compute, drivers/iospec.py, emitter/oracle in props/C18.py; modelled not verified: object identity as tokens, derived refs recomputed; pandas/openpyxl/importlib "
+                  "file round trip checked on the implementation only; histories avoid triggers of 11 recorded defects, closed models and absolute paths",
+             technique="Coq invariant induction over fold_left step + vm_compute correspondence + implementation-side oracle + stored defect witnesses", design="6/C18"),
+ "C20": dict(text="Coq proof over a line/token-position model of formula.py: normalisation to a canonical text, idempotence, name-only rename, docstring-only set_doc with read-back, lambda "
+                  "extraction, for all well-formed structured texts; tied to /repo on every run by evaluating the model on the real texts with asttokens positions, plus a behavioural oracle "
+                  "(values, parameters, AST, comments).",
+             note="partial: CPython tokenizer/compiler, ast+asttokens positions, textwrap.dedent, inspect.getsource modelled not verified (positions are inputs cross-checked per case); behavioural half "
+                  "rests on the (P) oracle; insert_indents=True, multi-line lambdas, _reload, NULL_FORMULA outside theorems; D10, D30-D36 recorded findings avoided",
+             technique="Coq Gallina model + inductive proofs + vm_compute correspondence on generated structured texts + differential oracle", design="6/C20"),
+})
+EXPLORE = {}
 PENDING = {}
 for i in range(1, 21):
     p = "C%02d" % i
